@@ -175,7 +175,7 @@ def _variant(v, how):
     if how == 2:
         return bool(v) if v in (0, 1) and not isinstance(v, bool) else None
     if how == 3:
-        return int(v) if isinstance(v, (bool, float)) and v == int(v) and abs(v) < 1e15 else None
+        return int(v) if isinstance(v, (bool, float)) and abs(v) < 1e15 and v == int(v) else None
     return None
 
 
